@@ -185,6 +185,21 @@ func checkCase(c Case) (f *evid.Failure) {
 	d.UseNumber()
 	var got []string
 	var gfinal error
+	// the RawMessage values as handed out (not copied by the harness): "yields exactly the values"
+	// is re-examined once the whole stream has been consumed, after the Decoder has refilled,
+	// compacted and grown its buffer any number of times
+	var held []segjson.RawMessage
+	defer func() {
+		if f != nil {
+			return
+		}
+		for i, r := range held {
+			if i < len(want) && string(r) != want[i] {
+				f = fail("values are those encoding/json yields for the same bytes (re-read after the later Decode calls)", fmt.Sprintf("value #%d is now %q", i, short(string(r))), fmt.Sprintf("%q", short(want[i])), "value-changed-later")
+				return
+			}
+		}
+	}()
 	prevOff := int64(0)
 	for {
 		var s string
@@ -194,6 +209,7 @@ func checkCase(c Case) (f *evid.Failure) {
 				break
 			}
 			s = string(r)
+			held = append(held, r)
 		} else {
 			var v any
 			if gfinal = d.Decode(&v); gfinal != nil {
